@@ -55,8 +55,9 @@ def _ew(f, *arrs):
 
 
 class _Clamp:
-    def __init__(self, lo):
+    def __init__(self, lo, t):
         self.lo = lo
+        self.t = t
 
 
 class Shim18(NPShim):
@@ -72,8 +73,12 @@ class Shim18(NPShim):
         # Sound over-approximation: t becomes an arbitrary real per lane and iteration, so every
         # clause is shown for *every* interpolation parameter (the clauses do not depend on t).
         if isinstance(b, _Clamp):
-            def one(up, lo_, pos):
-                # any value the clamp min(up, max(lo_, t)) can take, for arbitrary t:  r <= up and r >= min(lo_, up)
+            def one(up, lo_, pos, t_=None):
+                # bisection steps (t is the literal 0.5) are clamped exactly; an interpolated t (symbolic
+                # formula) is abstracted to any value the clamp min(up, max(lo_, t)) can take:
+                #   r <= up and r >= min(lo_, up)
+                if t_ is not None and not isinstance(t_, SymReal):
+                    return _f_min(up, _f_max(lo_, t_))
                 if not isinstance(up, SymReal) or not isinstance(lo_, SymReal):
                     return _f_min(up, lo_) if not isinstance(lo_, SymReal) else up
                 ctx = Ctx.cur
@@ -84,13 +89,15 @@ class Shim18(NPShim):
                 ctx.assume(r.t <= up.t, z3.Or(r.t >= lo_.t, r.t == up.t))
                 return r
             if np.shape(a) == ():
-                return one(a, b.lo, 0)
-            return objarr([one(x, y, i) for i, (x, y) in enumerate(zip(list(a), list(b.lo)))])
+                return one(a, b.lo, 0, b.t)
+            ts = list(np.broadcast_to(np.asarray(b.t, dtype=object), np.shape(a)))
+            return objarr([one(x, y, i, tt) for i, (x, y, tt) in enumerate(zip(list(a), list(b.lo), ts))])
         return _ew(_f_min, a, b) if (has_sym(a) or has_sym(b)) else np.minimum(a, b)
 
     def maximum(self, a, b):
         if self.abstract_t and (has_sym(a) or has_sym(b)):
-            return _Clamp(a)
+            Ctx.cur.notes.setdefault('tlog', []).append(b)
+            return _Clamp(a, b)
         return _ew(_f_max, a, b) if (has_sym(a) or has_sym(b)) else np.maximum(a, b)
 
     def clip(self, a, lo, hi, **k):
@@ -176,6 +183,12 @@ def make_f(ctx, lanes, calls, scalar=False, tag='', lo=None, hi=None, valid_only
         out = []
         for i, xi in enumerate(xs):
             lane = lanes[i]
+            hit = [c for c in calls if c[0] == lane and tz(c[1]).eq(tz(xi))]
+            if hit:
+                # same argument term as an earlier evaluation: same value (functional consistency)
+                calls.append((lane, xi, hit[0][2]))
+                out.append(hit[0][2])
+                continue
             n = sum(1 for c in calls if c[0] == lane)
             fx = SymReal(z3.Real(f'f{tag}_{lane}_{n}'))
             if valid_only and lo is not None:
@@ -443,9 +456,20 @@ def lane_independence(algo, k, tlimit=600, nprocs=16):
     t0 = time.time()
     Ctx.relax = staticmethod(relax_iqi) if algo == 'chandrupatla' else None
     with patched(O, np=sh):
-        outs, ex, total, dt = par_explore(harness(algo, (0, 1), k, valid_only=True), _project_paths, nprocs=nprocs,
-                                          tlimit=tlimit, ieee_div=(algo == 'chandrupatla'), catch=(Exception, AssertionError))
-    recs = [r for o in outs for r in o]
+        outs, ex, total, dt = par_explore(
+            harness(algo, (0, 1), k), lambda paths: (_project_paths(paths), analyse_paths(paths, algo, (0, 1), k, False)),
+            nprocs=nprocs, tlimit=tlimit, ieee_div=(algo == 'chandrupatla'), catch=(Exception, AssertionError))
+    recs = [r for o in outs for r in o[0]]
+    pa = {'stat': {'ok': 0, 'assert': 0, 'other': 0, 'unsupported': 0}, 'fails': [], 'nfails': 0, 'queries': 0,
+          'obligations': 0, 'unknown_branches': 0, 'samples': []}
+    for o in outs:
+        o = o[1]
+        for k_ in pa['stat']:
+            pa['stat'][k_] += o['stat'][k_]
+        pa['fails'] = (pa['fails'] + o['fails'])[:10]
+        for k_ in ('nfails', 'queries', 'obligations', 'unknown_branches'):
+            pa[k_] += o[k_]
+        pa['samples'] = (pa['samples'] + o['samples'])[:3]
     bad = []
     groups = {}
     for r in recs:
@@ -494,8 +518,8 @@ def lane_independence(algo, k, tlimit=600, nprocs=16):
                 bad.append({'what': f'lane-0 results differ for jointly satisfiable lane-0 projections ({v})',
                             'model': model_inputs(s.model(), (0,)) if v == z3.sat else None, 'ri': ri['r0s'][:100], 'rj': rj['r0s'][:100]})
             s.pop()
-    return {'algo': algo, 'k': k, 'pairs': npairs, 'queries': nq, 'bad': bad[:5], 'nbad': len(bad), 'exhaustive': ex,
-            'secs': time.time() - t0, 'paths': total, 'groups': len(groups)}
+    return {'algo': algo, 'k': k, 'pairs': npairs, 'queries': nq + pa['queries'], 'bad': bad[:5], 'nbad': len(bad), 'exhaustive': ex,
+            'secs': time.time() - t0, 'paths': total, 'groups': len(groups), 'pathres': pa}
 
 
 def scalar_equiv(k, tlimit=600, nprocs=16):
@@ -516,8 +540,11 @@ def scalar_equiv(k, tlimit=600, nprocs=16):
         fv = make_f(ctx, (0,), calls, False, 'V')
         fs = make_f(ctx, (0,), calls, True, 'S')
         res = []
+        tlogs = []
         for scalar in (False, True):
             ctx.notes['tcount'] = {}
+            ctx.notes['tlog'] = []
+            tlogs.append(ctx.notes['tlog'])
             try:
                 if scalar:
                     res.append(('ok', O.chandrupatla(fs, lo, hi, maxiter=k)))
@@ -525,6 +552,7 @@ def scalar_equiv(k, tlimit=600, nprocs=16):
                     res.append(('ok', O.chandrupatla(fv, objarr([lo]), objarr([hi]), maxiter=k)[0]))
             except AssertionError:
                 res.append(('assert', None))
+        ctx.notes['tlogs'] = tlogs
         return res
 
     def analyse(paths):
@@ -536,6 +564,30 @@ def scalar_equiv(k, tlimit=600, nprocs=16):
                 bad.append({'what': f'{p.status}: {p.exc!r}', 'model': None})
                 continue
             (s1, a), (s2, b) = p.value
+            # the interpolation parameter chosen at each iteration must agree (literal 0.5 = bisection step)
+            tv, ts = p.ctx.notes.get('tlogs', ([], []))
+            for it, (x, y) in enumerate(zip(tv, ts)):
+                x0 = list(np.asarray(x, dtype=object).flat)[0]
+                y0 = list(np.asarray(y, dtype=object).flat)[0]
+                same = (isinstance(x0, SymReal) == isinstance(y0, SymReal))
+                if same and isinstance(x0, SymReal):
+                    same = x0.t.eq(y0.t)
+                    if not same:
+                        s = z3.Solver()
+                        s.set('timeout', 10000)
+                        s.add(*p.ctx.pc)
+                        s.add(x0.t != y0.t)
+                        nq += 1
+                        same = s.check() == z3.unsat
+                elif same:
+                    same = (x0 == y0)
+                if not same:
+                    s = z3.Solver()
+                    s.add(*p.ctx.pc)
+                    mi = first_model(s, (0,))
+                    bad.append({'what': f'iteration {it + 1}: interpolation parameter differs between scalar and 1-vector input '
+                                        f'({str(y0)[:40]} vs {str(x0)[:40]})', 'model': mi})
+                    break
             if s1 != s2:
                 s = z3.Solver()
                 s.add(*p.ctx.pc)
@@ -590,6 +642,10 @@ def concrete_f_from_model(model, lane):
 
 def replay(data):
     import copulas.optimize as OO
+    if data.get('scalar'):
+        return replay_scalar(data)
+    if data.get('what') == 'lane dependence':
+        return replay_lanes(data)
     model = data.get('model') or {}
     lanes = data['lanes']
     algo = data['algo']
@@ -644,13 +700,11 @@ def run(tier, seed):
     ck.stubs = ['f: uninterpreted F(lane, x), non-decreasing between all evaluated points (Ackermann instances)',
                 'np.sign/abs/clip/choose/minimum/maximum/logical_or: merged If-terms; logical_and: concrete (forks)']
     if tier == 'quick':
-        jobs = [('paths', 'bisect', (0,), 3), ('paths', 'bisect', (0, 1), 2), ('paths', 'chandrupatla', (0,), 2),
-                ('paths', 'chandrupatla', (0, 1), 1), ('paths', 'chandrupatla', (0,), 1, True),
-                ('lanes', 'bisect', 2), ('lanes', 'chandrupatla', 1), ('scalar', 1)]
+        jobs = [('paths', 'bisect', (0,), 3), ('paths', 'chandrupatla', (0,), 2), ('paths', 'chandrupatla', (0,), 1, True),
+                ('lanes', 'bisect', 2), ('lanes', 'chandrupatla', 1), ('scalar', 2)]
         ck.bounds = {'bisect': 'lanes<=2, maxiter k<=3 (1 lane) / 2 (2 lanes)', 'chandrupatla': 'lanes<=2, k<=2 (1 lane) / 1 (2 lanes); scalar-vs-vector product k<=1'}
     else:
-        jobs = [('paths', 'bisect', (0,), 6), ('paths', 'bisect', (0, 1), 3), ('paths', 'chandrupatla', (0,), 2),
-                ('paths', 'chandrupatla', (0, 1), 1), ('paths', 'chandrupatla', (0,), 2, True),
+        jobs = [('paths', 'bisect', (0,), 6), ('paths', 'chandrupatla', (0,), 2), ('paths', 'chandrupatla', (0,), 2, True),
                 ('lanes', 'bisect', 3), ('lanes', 'chandrupatla', 1), ('scalar', 2, 1500)]
         ck.bounds = {'bisect': 'lanes<=2, maxiter k<=6 (1 lane) / 3 (2 lanes)', 'chandrupatla': 'lanes<=2, k<=2 (1 lane) / 1 (2 lanes); scalar k<=2'}
     ck.bounds['values'] = 'brackets lo<=hi and all f-values unbounded reals; tol/eps at their coded defaults'
@@ -685,6 +739,16 @@ def run(tier, seed):
                 else:
                     ck.inconcl(f"{name}: {fl['what']} [{fl['verdict']}] not reproduced on the real code")
         elif kind == 'lanes':
+            pr = r['pathres']
+            nm2 = f"{r['algo']} lanes=2 k={r['k']}: {r['paths']} paths {pr['stat']}"
+            ck.ob(nm2, 'unsat' if pr['nfails'] == 0 else 'sat', 0.0, queries=0, paths=r['paths'])
+            ck.transitions += pr['obligations']
+            for fl in pr['fails'][:3]:
+                rep = {'algo': r['algo'], 'lanes': [0, 1], 'k': r['k'], 'model': fl['model'], 'what': fl['what']}
+                if fl['model'] is not None and replay(rep):
+                    ck.violation(f"{r['algo']}:{fl['what'].split(':')[-1].strip()}", f"{r['algo']}: {fl['what']} (lanes=2, k={r['k']})", rep)
+                else:
+                    ck.inconcl(f"{nm2}: {fl['what']} [{fl['verdict']}] not reproduced on the real code")
             name = f"{r['algo']} lane independence k={r['k']}: {r['pairs']} path pairs"
             ck.ob(name, 'unsat' if r['nbad'] == 0 else 'sat', r['secs'], queries=0, paths=r['paths'])
             for b in r['bad'][:2]:
@@ -697,8 +761,8 @@ def run(tier, seed):
             name = f"chandrupatla scalar == 1-vector k={r['k']}: {r['pairs']} compatible path pairs"
             ck.ob(name, 'unsat' if r['nbad'] == 0 else 'sat', r['secs'], queries=0, paths=r['paths'])
             for b in r['bad'][:2]:
-                rep = {'algo': 'chandrupatla', 'lanes': [0], 'k': r['k'], 'model': b['model'], 'what': 'scalar', 'scalar': True}
-                if b['model'] is not None and replay_scalar(rep):
+                rep = {'algo': 'chandrupatla', 'lanes': [0], 'k': r['k'], 'model': b['model'] or {}, 'what': 'scalar', 'scalar': True}
+                if replay_scalar(rep):
                     ck.violation('chandrupatla:scalar', f"chandrupatla scalar input differs from 1-vector: {b['what']}", rep)
                 else:
                     ck.inconcl(f'{name}: {b} not reproduced')
@@ -745,4 +809,17 @@ def replay_scalar(data):
         except Exception as e:
             res.append(type(e).__name__)
     print(res)
-    return res[0] != res[1]
+    if res[0] != res[1]:
+        return True
+    # the abstraction hides the numeric value of t: also run the standard flat-root family to completion
+    for (g, lo, hi) in _FAMILY:
+        a = float(OO.chandrupatla(lambda x: np.asarray(g(x)), np.array([lo]), np.array([hi]))[0])
+        b = float(OO.chandrupatla(lambda x: float(g(x)), lo, hi))
+        if not (abs(a - b) <= 1e-9 * max(1.0, abs(hi - lo))):
+            print('family witness', lo, hi, a, b)
+            return True
+    return False
+
+
+_FAMILY = [(lambda x: (x + 3.7) ** 3, -50.0, 2.0), (lambda x: (x - 1.3) ** 5, -4.0, 9.0), (lambda x: np.tanh(x - 0.2), -3.0, 5.0),
+           (lambda x: np.exp(x) - 2.0, -1.0, 4.0), (lambda x: 3.0 * x - 1.0, -10.0, 10.0), (lambda x: (x - 10.0) ** 3, 0.0, 100.0)]
